@@ -14,6 +14,7 @@
 (*               the sites on either side                                   *)
 (*   PtReturn    PT-TEMPO's compute_step says "more to do" exactly while    *)
 (*               step < N; at step N the state has N sites, operator one    *)
+(* and for PT-TEBD (PtTebdBackend) the rules stated at TebdRules below.     *)
 (***************************************************************************)
 EXTENDS NetShapeOps, FiniteSets, TLC, Json, IOUtils
 
@@ -66,6 +67,31 @@ StepRules(o) ==
           <<"Bonds", BondRule([e EXCEPT !.D = o.D])>>,
           <<"PtReturn", o.alg = "pt" => (E.ret = (cur < o.N) /\ (cur = o.N => (E.mps = o.N /\ E.mpo = 1)))>> >>
 
+\* ---- PT-TEBD: the augmented chain after every layer of gates / process-tensor step (PtTebdBackend)
+\*   Sites           one physical leg, one process-tensor leg, one bond to either side per site; n + 1 lambdas
+\*   Chain           every lambda is square and has the dimension of the bonds it sits between
+\*   Phys            physical dimensions never change
+\*   PtLeg           after process-tensor step k the leg of site i has the bond dimension the tensor declares between its
+\*                   steps k and k + 1 (unchanged where there is no environment)
+\*   PtKeep          gates do not touch process-tensor legs
+\*   SiteKeepsBonds  single-site gates (controls) do not touch bonds
+TebdShapeOk(e) ==
+    LET n == Len(e.phys) IN
+    /\ Len(e.pt) = n /\ Len(e.left) = n /\ Len(e.right) = n /\ Len(e.lam) = n + 1
+    /\ \A i \in 1..(n + 1) : e.lam[i][1] = e.lam[i][2]
+    /\ \A i \in 1..n : e.lam[i][2] = e.left[i] /\ e.right[i] = e.lam[i + 1][1]
+TebdInitRules == << <<"Chain", TebdShapeOk(E)>> >>
+TebdRules(o) ==
+    LET n == Len(o.phys)
+        sites == Len(E.phys) = n /\ Len(E.pt) = n /\ Len(E.left) = n /\ Len(E.right) = n /\ Len(E.lam) = n + 1
+    IN << <<"Sites", sites>>,
+          <<"Chain", sites => TebdShapeOk(E)>>,
+          <<"Phys", E.phys = o.phys>>,
+          <<"PtLeg", (sites /\ E.op = "pt") =>
+                        (Len(E.ptexp) = n /\ \A i \in 1..n : E.pt[i] = (IF E.ptexp[i] < 0 THEN o.pt[i] ELSE E.ptexp[i]))>>,
+          <<"PtKeep", E.op \in {"nn", "site"} => E.pt = o.pt>>,
+          <<"SiteKeepsBonds", E.op = "site" => (E.left = o.left /\ E.right = o.right)>> >>
+
 FailedOf(R) == { R[i][1] : i \in { j \in DOMAIN R : ~R[j][2] } }
 
 Consume ==
@@ -82,6 +108,15 @@ Consume ==
                /\ objs' = [objs EXCEPT ![E.oid].step = E.step, ![E.oid].net = Net([E EXCEPT !.alg = objs[E.oid].alg])]
                /\ bad' = IF FailedOf(StepRules(objs[E.oid])) = {} THEN bad
                          ELSE Append(bad, [line |-> l, oid |-> E.oid, kind |-> objs[E.oid].alg, rules |-> FailedOf(StepRules(objs[E.oid]))])
+         [] E.ev = "tebd-init" ->
+               /\ objs' = (E.oid :> [alg |-> "tebd", phys |-> E.phys, pt |-> E.pt, left |-> E.left, right |-> E.right, broken |-> FALSE]) @@ objs
+               /\ bad' = IF FailedOf(TebdInitRules) = {} THEN bad
+                         ELSE Append(bad, [line |-> l, oid |-> E.oid, kind |-> "tebd", rules |-> FailedOf(TebdInitRules)])
+         [] E.ev = "tebd-raised" /\ Known -> objs' = [objs EXCEPT ![E.oid].broken = TRUE] /\ UNCHANGED bad
+         [] E.ev = "tebd-op" /\ Known /\ ~objs[E.oid].broken ->
+               /\ objs' = [objs EXCEPT ![E.oid].pt = E.pt, ![E.oid].left = E.left, ![E.oid].right = E.right]
+               /\ bad' = IF FailedOf(TebdRules(objs[E.oid])) = {} THEN bad
+                         ELSE Append(bad, [line |-> l, oid |-> E.oid, kind |-> "tebd", rules |-> FailedOf(TebdRules(objs[E.oid]))])
          [] E.ev = "hook-error" -> bad' = Append(bad, [line |-> l, oid |-> "-", kind |-> "hook-error", rules |-> {"hook-error"}]) /\ UNCHANGED objs
          [] OTHER -> UNCHANGED <<objs, bad>>
 
